@@ -135,6 +135,8 @@ THEOREMS.update({
     "C04_loop_reads_projection": "that iteration is literally a function of downstream_input (training through its observed part)",
     "C04_loop_thetas_from_observed": "the posterior samples are sweeps on exactly the documented training trips of the observed rows (sampler data = columns of train_sdc's result)",
     "C04_source_train_stage": "the translated add_observations around the translated SparseDrugCombo._add_observations on a fresh object, handed subset_observed (train_model.main's call) = train_sdc",
+    "C04_source_train_stage_interaction": "the same for SparseDrugComboInteraction: (single-effect lookup, wrapped object) after the translated training call = train_int with all repair switches true",
+    "C04_source_train_stage_interaction_noninterference": "... equal for two screens that differ only behind the mask: the interaction sampler (its blocks read the wrapped lists) and predict_viability (the lookup frozen at training) start from equal inputs",
     "C04_source_thetas_noninterference": "the translated mcmc_step (Generated/SrcGibbs.v) with ANY block runner that is handed the data the translated training stored (C08's translated blocks are one), any recorded draws: equal posterior samples",
     "C04_source_thetas_data": "... and that data is gibbs_data (train_sdc rows)",
     "C04_source_distance_noninterference": "C07's composition of the translated calculate_pairwise_distance_matrix_on_predictions / save / load / concat / to_dense, predictions any function of (sample, row ids): equal dense matrices, any chunk count / order",
